@@ -165,6 +165,81 @@ theorem fresh_proxy_is_new (s : Side) (id : Id) (hinv : PxInv s) (hdead : s.px i
 
 theorem proxy_invariant_init : PxInv Side.init := pxInv_init
 
+/-! ### all orders of sending, echoing back, handing out, keeping and forgetting
+
+`Conv.run Conv.init ops` is the state after ANY finite sequence of conversation steps (`send` kept or not, `echo`,
+`make`, `forget`, with any values).  Between steps nothing is in flight, so the C10 counts balance directly. -/
+
+/-- **In every reachable state of a conversation** both lending directions are balanced (an end's table holds for a key
+exactly what the other end's live proxy counts), no proxy counts zero, and at each end live proxies are distinct
+objects with serial numbers below `next`. -/
+theorem conv_invariant (ops : List ConvOp) : ConvInv (Conv.run Conv.init ops) := convInv_run ops _ convInv_init
+
+/-- hence proxy identity holds in every reachable state: the hypothesis of `fresh_proxy_is_new` and
+`proxy_survives_traffic` is always met, at both ends -/
+theorem conv_proxies_identified (ops : List ConvOp) :
+    PxInv (Conv.run Conv.init ops).a ∧ PxInv (Conv.run Conv.init ops).b :=
+  ⟨(conv_invariant ops).2.px, (conv_invariant ops).1.px⟩
+
+/-- ... and echo identity needs no side condition: whenever an end holds a live proxy, the owner's table holds the
+key, so handing the proxy back yields the original object (in both directions) -/
+theorem conv_echo_identity (ops : List ConvOp) (k : Id) :
+    ((Conv.run Conv.init ops).b.px k ≠ none →
+        unbox (Conv.run Conv.init ops).a (.localRef k) = .ok (.obj k, (Conv.run Conv.init ops).a))
+    ∧ ((Conv.run Conv.init ops).a.px k ≠ none →
+        unbox (Conv.run Conv.init ops).b (.localRef k) = .ok (.obj k, (Conv.run Conv.init ops).b)) := by
+  have h := conv_invariant ops
+  constructor
+  · intro hl
+    have hb := h.1.bal k
+    have hp := cnt_pos_of_ne_zero (h.1.pos k) hl
+    cases ht : (Conv.run Conv.init ops).a.tbl k with
+    | none => rw [ht] at hb; simp [val] at hb; omega
+    | some n => simp [unbox, resolve, create, ht]
+  · intro hl
+    have hb := h.2.bal k
+    have hp := cnt_pos_of_ne_zero (h.2.pos k) hl
+    cases ht : (Conv.run Conv.init ops).b.tbl k with
+    | none => rw [ht] at hb; simp [val] at hb; omega
+    | some n => simp [unbox, resolve, create, ht]
+
+/-- when every proxy has been let go the tables are empty again (nothing is in flight between steps) -/
+theorem conv_no_leak (ops : List ConvOp) (k : Id) (h : (Conv.run Conv.init ops).b.px k = none) :
+    (Conv.run Conv.init ops).a.tbl k = none := by
+  have hb := (conv_invariant ops).1.bal k
+  rw [h] at hb
+  exact val_eq_zero.mp (by simpa [cnt] using hb)
+
+/-! ### one proxy although receiving it needs a round trip
+
+Creating the first proxy of an object whose class the receiver has not seen performs a `HANDLE_INSPECT` round trip from
+inside `_unbox`; a message dispatched by its nested serve() may carry the same object. -/
+
+/-- **Still one proxy** (generated constant `oneProxyAcrossInspect`, observed on the live `_unbox`): the nested
+dispatch and the outer `_unbox` end up with the same proxy object, counted twice. -/
+theorem one_proxy_across_inspect (s : Side) (id : Id) (h : s.px id = none) :
+    (unboxRefAcrossInspect Gen.Box.oneProxyAcrossInspect s id).1 = (unboxRefAcrossInspect Gen.Box.oneProxyAcrossInspect s id).2.1
+    ∧ (unboxRefAcrossInspect Gen.Box.oneProxyAcrossInspect s id).2.2.px id = some 2 := by
+  have hc : Gen.Box.oneProxyAcrossInspect = true := by decide
+  rw [hc]
+  have hmiss : unboxRef s id = (.proxy id s.next,
+      { s with px := s.px.recv id, pid := fun j => if j = id then s.next else s.pid j, next := s.next + 1 }) := by
+    simp [unboxRef, h]
+  have hit1 : ∀ (t : Side) (c : Nat), t.px id = some c → unboxRef t id = (.proxy id (t.pid id), { t with px := t.px.recv id }) := by
+    intro t c ht; simp [unboxRef, ht]
+  have h1 : (unboxRef s id).2.px id = some 1 := by rw [hmiss]; simp [Tbl.recv, h, hit]
+  simp only [unboxRefAcrossInspect, if_true]
+  rw [hit1 (unboxRef s id).2 1 h1]
+  constructor
+  · rw [hmiss]; simp
+  · simp [Tbl.recv, h1, hit]
+
+/-- **Counterexample for the check-then-insert order** (`_unbox` looking the cache up only before the round trip): two
+different proxy objects for one remote object, both alive -/
+theorem stale_miss_makes_two_proxies :
+    (unboxRefAcrossInspect false Side.init 3).1 = .proxy 3 0 ∧ (unboxRefAcrossInspect false Side.init 3).2.1 = .proxy 3 1 := by
+  constructor <;> rfl
+
 /-- **Boxing and unboxing move the counts of C10 and nothing else**: `_box` adds exactly the by-reference keys of
 the label tree it returns, in order; `_unbox` counts exactly those keys at the receiver.  (This is what a
 `send ks` / `deliver` of the C10 machine abstracts: `ks = l.remoteRefs`.) -/
